@@ -40,6 +40,11 @@ def jobs(tier):
         for b in ([("short", "string")] if q else [("short", "string"), ("char",), ("encoded_string",)]):
             js.append(dict(name=f"sliced[{'+'.join(a)}|{'+'.join(b)}|int]", fn="chunks", args=[[list(a), list(b), ["int"]], 2, list(SURPLUS), True],
                            collect_models=1, expect=["last chunk consumed exactly"]))
+    # an unsanitised header ahead of the chunks (its text may coincide with a chunk's string)
+    for a in ([("char", "string"), ("string",)] if q else [("char", "string"), ("string",), ("short", "encoded_string"), ("fixed_string", "string")]):
+        for L in ((1, 2) if q else (0, 1, 2, 3)):
+            js.append(dict(name=f"header[{'+'.join(a)}|short+string|int,L={L}]", fn="chunks", args=[[list(a), ["short", "string"], ["int"]], L, list(SURPLUS), False, True],
+                           collect_models=1, expect=["last chunk consumed exactly"]))
     # size thresholds: a chunk that ends far from where it starts (seed C06h: a break scan that works in widening windows)
     for L in ((66, 130) if q else (33, 66, 100, 130, 200, 260)):
         js.append(dict(name=f"long[char+string|short+string|int,L={L}]", fn="chunks", args=[[["char", "string"], ["short", "string"], ["int"]], L, list(SURPLUS)],
